@@ -946,6 +946,19 @@ class Hist:
             gs.append(Group(g["id"], name=g.get("name", ""), members=members, kind=g.get("kind", "collection")))
         a.model.add_groups(gs)
 
+    def do_group_edit(self, a, op, env):
+        if not a.model.groups.has_id(op["gid"]):
+            raise Skip("no group")
+        g = a.model.groups.get_by_id(op["gid"])
+        how = op["how"]
+        if how in ("add", "remove"):
+            members = [{"Reaction": self.rxn, "Metabolite": self.met, "Gene": self.gene}[t](a, i) for t, i in op["members"]]
+            (g.add_members if how == "add" else g.remove_members)(members)
+        elif how == "kind":
+            g.kind = op["value"]
+        else:
+            g.name = op["value"]
+
     def do_remove_groups(self, a, op, env):
         items = []
         for gid in op["ids"]:
@@ -1346,7 +1359,7 @@ ALL_KINDS = {
     "remove_genes": 2, "rename_genes": 1, "medium": 2, "build_from_string": 1, "optimize": 2,
     "slim_optimize": 2, "repair": 1, "solver": 1, "tolerance": 1, "compartments": 1, "add_groups": 1,
     "remove_groups": 1, "enter": 0, "exit": 0, "exit_exc": 0, "copy": 0, "deepcopy": 0, "pickle": 0,
-    "rxn_copy": 1, "rxn_arith": 1, "edit_dict": 1, "restart": 0, "helper": 1, "merge": 1, "readd_reaction": 3, "det_mutate": 1, "prune": 1, "config_bounds": 1,
+    "rxn_copy": 1, "rxn_arith": 1, "edit_dict": 1, "restart": 0, "helper": 1, "merge": 1, "readd_reaction": 3, "det_mutate": 1, "prune": 1, "config_bounds": 1, "group_edit": 1,
 }
 
 PROP_BIAS = {
@@ -1362,7 +1375,7 @@ PROP_BIAS = {
             "enter": 1, "exit": 2, "copy": 1, "pickle": 1, "add_boundary": 3, "knock_out_gene": 2, "imul": 2},
     "C11": {"restart": 10, "edit_dict": 4, "set_attr": 4, "set_bounds": 6, "set_direction": 3, "set_objective": 3,
             "add_groups": 1, "rename_rxn": 2, "rename_met": 2, "set_rule": 4, "compartments": 2},
-    "C10": {"restart": 10, "edit_dict": 4, "set_attr": 4, "set_bounds": 6, "set_direction": 3, "set_objective": 3,
+    "C10": {"restart": 10, "edit_dict": 4, "set_attr": 4, "set_bounds": 6, "set_direction": 3, "set_objective": 3, "group_edit": 3,
             "add_groups": 3, "rename_rxn": 2, "rename_met": 2, "set_rule": 4, "compartments": 2, "remove_groups": 1},
     "C12": {"copy": 4, "deepcopy": 2, "pickle": 3, "rxn_copy": 3, "rxn_arith": 3, "edit_dict": 4, "det_mutate": 4, "prune": 2,
             "enter": 1, "exit": 2},
@@ -1711,6 +1724,22 @@ def gen_op(rng, H, sw):
         if not ref.groups:
             return gen_fallback(op, rid, rng)
         op["ids"] = [rng.choice(sorted(ref.groups))]
+    elif k == "group_edit":
+        if not ref.groups:
+            return gen_fallback(op, rid, rng)
+        gid = rng.choice(sorted(ref.groups))
+        how = rng.choice(["add", "add", "remove", "kind", "name"])
+        op.update(gid=gid, how=how)
+        if how == "add":
+            cands = [["Reaction", r] for r in rids] + [["Metabolite", m] for m in mids] + [["Gene", g] for g in gids]
+            op["members"] = rng.sample(cands, min(len(cands), rng.randint(1, 2)))
+        elif how == "remove":
+            cur = ref.groups[gid]["members"]
+            op["members"] = rng.sample(cur, min(len(cur), 1)) if cur else []
+        elif how == "kind":
+            op["value"] = rng.choice(["collection", "classification", "partonomy"] + (["bogus"] if inv else []))
+        else:
+            op["value"] = rng.choice(["", "renamed group"])
     elif k == "prune":
         op["what"] = rng.choice(["mets", "rxns"])
     elif k == "pickle":
